@@ -42,6 +42,13 @@ def wrapLo (L : K) : Nat → K → Option K
 def wrap1 (L : K) (fuel : Nat) (x : K) : Option K :=
   (wrapHi L fuel x).bind (wrapLo L fuel)
 
+/-- `for` over the particles with a body that may not return (fuel) -/
+def mapOpt {α β : Type} (f : α → Option β) : List α → Option (List β)
+  | [] => some []
+  | a :: l => match f a with
+    | none => none
+    | some b => (mapOpt f l).map (b :: ·)
+
 /-- the coordinates `reb_boundary_check` can touch -/
 structure P (K : Type) where
   x : K
@@ -58,7 +65,7 @@ def periodic1 (bx bY bz : K) (fuel : Nat) (p : P K) : Option (P K) :=
 
 /-- REB_BOUNDARY_PERIODIC, all particles (`for (int i=0;i<N;i++)`; N is not touched) -/
 def periodic (bx bY bz : K) (fuel : Nat) (ps : List (P K)) : Option (List (P K)) :=
-  ps.mapM (periodic1 bx bY bz fuel)
+  mapOpt (periodic1 bx bY bz fuel) ps
 
 /-- `while(x>bx/2.){ x -= bx; y += offsetp1; vy += dv; }` -/
 def shearHi (bx op1 dv : K) : Nat → P K → Option (P K)
@@ -89,7 +96,7 @@ def shear1 (bx bY bz op1 om1 dv : K) (fuel : Nat) (p : P K) : Option (P K) :=
 
 def shear (fmod : K → K → K) (omega t bx bY bz : K) (fuel : Nat) (ps : List (P K)) : Option (List (P K)) :=
   let (op1, om1, dv) := shearOffsets fmod omega t bx bY
-  ps.mapM (shear1 bx bY bz op1 om1 dv fuel)
+  mapOpt (shear1 bx bY bz op1 om1 dv fuel) ps
 
 /-- the six `if`s of the open branch (identical to `reb_boundary_particle_is_in_box` negated) -/
 def outside (bx bY bz : K) (p : P K) : Bool :=
@@ -108,7 +115,7 @@ variable {α : Type}
 def swapRemove (l : List α) (i : Nat) : List α :=
   match l.getLast? with
   | none => l
-  | some last => (l.set i last).dropLast
+  | some last => (l.dropLast).set i last      -- `N--`, then `particles[i] = particles[N]`
 
 theorem swapRemove_length (l : List α) (i : Nat) (h : i < l.length) :
     (swapRemove l i).length = l.length - 1 := by
